@@ -71,7 +71,8 @@ Definition b3_unknown_due (body : list string) : bool :=
 
 (** B4. An ambiguous token after an optional-value flag is an error: the
     command line starts  <task> <optional-value flag of that task> <x>  and
-    either x is a task name or the task still lacks a positional argument. *)
+    either x is a task name or the task still lacks a positional argument
+    (list-kind positionals start as [] and are never "lacking"). *)
 Definition b4_ambiguity_due (body : list string) : bool :=
   match body with
   | c0 :: f :: x :: _ =>
@@ -83,7 +84,8 @@ Definition b4_ambiguity_due (body : list string) : bool :=
           | Some a =>
               a_optional a && takes_value a && negb (akind_eqb (a_kind a) KList)
               && ((plain x && is_task_name cs x)
-                  || existsb (fun p => a_positional p && aval_is_none (a_default p)) (cx_args c))
+                  || existsb (fun p => a_positional p && aval_is_none (a_default p)
+                                       && negb (akind_eqb (a_kind p) KList)) (cx_args c))
           | None => false
           end
       | None => false
